@@ -4,3 +4,4 @@ pub mod program;
 pub mod refasm;
 pub mod formats;
 pub mod invariants;
+pub mod incl;
